@@ -28,7 +28,7 @@ type authIn struct {
 	Op      string // verify, register, unregister, forget
 	Pool    int
 	Issue   uint64
-	Corrupt string // "", id, cold, kes, body
+	Corrupt string // "", id, cold, kes, body, cert-issue, cert-period, cert-keskey, coldkey
 }
 
 type authState struct {
@@ -123,7 +123,7 @@ func authSetup(s *rt.Sim, tier string) func() {
 					default:
 						in.Op = "verify"
 						in.Issue = uint64(pick("op", 4))
-						in.Corrupt = oneOf("op", "", "", "", "id", "cold", "kes", "body")
+						in.Corrupt = oneOf("op", "", "", "", "", "", "id", "cold", "kes", "body", "cert-issue", "cert-period", "cert-keskey", "coldkey")
 					}
 					call := int64(rt.Stamp())
 					var out interface{}
@@ -147,6 +147,16 @@ func authSetup(s *rt.Sim, tier string) func() {
 							m.KESSignature[100] ^= 1
 						case "body":
 							m.Payload.MessageBody = append(m.Payload.MessageBody, 'x')
+						case "cert-issue":
+							// certificate body altered, cold signature kept
+							m.OperationalCertificate.IssueNumber += 1 + uint64(pick("op", 3))
+						case "cert-period":
+							m.OperationalCertificate.KESPeriod++
+						case "cert-keskey":
+							// another pool's KES key signs the payload; the cold signature is over the genuine key
+							m = authMessageForeignKes(in.Pool, in.Issue, pick("op", 3), (in.Pool+1+pick("op", 2))%3)
+						case "coldkey":
+							m.ColdVerificationKey = append([]byte(nil), pools[(in.Pool+1)%3].coldPk...)
 						}
 						err := auth.VerifyMessage(&m)
 						out = err == nil
@@ -156,7 +166,7 @@ func authSetup(s *rt.Sim, tier string) func() {
 						if verifierMode == 4 && err == nil {
 							rt.Violate("C46/accepted-without-verifier", "no KES verifier and insecure mode off, yet %+v was accepted", in)
 						}
-						if verifierMode == 5 && err == nil && (in.Corrupt == "id" || in.Corrupt == "cold" || in.Corrupt == "body") {
+						if verifierMode == 5 && err == nil && (in.Corrupt != "" && in.Corrupt != "kes") {
 							rt.Violate("C46/insecure-mode-skips-other-checks", "insecure KES mode accepted a message with corrupt %s", in.Corrupt)
 						}
 					}
